@@ -29,6 +29,10 @@ type FuncResult struct {
 }
 
 func (e *Engine) verifyFunc(key string, budget int) (res *FuncResult) {
+	return e.verifyFuncFor(key, budget, "")
+}
+
+func (e *Engine) verifyFuncFor(key string, budget int, prop string) (res *FuncResult) {
 	res = &FuncResult{Key: key}
 	fn := e.funcs[key]
 	if fn == nil {
@@ -42,7 +46,7 @@ func (e *Engine) verifyFunc(key string, budget int) (res *FuncResult) {
 	}
 	c := newCtx(key)
 	res.Ctx = c
-	x := &Exec{e: e, c: c, top: fn, budget: budget, funcsUsedModular: map[string]bool{}, funcsInlined: map[string]bool{}, funcsAbstracted: map[string]bool{}, externs: map[string]bool{}, lemmasUsed: map[string]bool{}}
+	x := &Exec{e: e, c: c, top: fn, budget: budget, prop: prop, funcsUsedModular: map[string]bool{}, funcsInlined: map[string]bool{}, funcsAbstracted: map[string]bool{}, externs: map[string]bool{}, lemmasUsed: map[string]bool{}}
 	defer func() {
 		if r := recover(); r != nil {
 			if se, ok := r.(specError); ok {
@@ -114,6 +118,9 @@ func (e *Engine) verifyFunc(key string, budget int) (res *FuncResult) {
 		}
 		res.LoopsWithInv = len(seen)
 		for _, cl := range ct.Clauses {
+			if !x.active(cl) {
+				continue
+			}
 			if cl.Kind == "requires" || cl.Kind == "assume" || cl.Kind == "preserves" {
 				t := fr.evalSpecBool(cl.Expr, fr.cur, nil, map[string]sval{})
 				c.assume(t)
@@ -137,6 +144,13 @@ func (e *Engine) verifyFunc(key string, budget int) (res *FuncResult) {
 					t := fr.evalSpecBool(cl.Expr, st, nil, map[string]sval{})
 					c.assume(imp(st.reach, t))
 				}
+			}
+		}
+	}
+	if ct != nil {
+		for _, cl := range ct.Clauses {
+			if cl.Kind == "apply" && cl.Loop < 0 {
+				fr.applyLemma(cl, fr.cur, map[string]sval{})
 			}
 		}
 	}
@@ -173,7 +187,7 @@ func (fr *Frame) checkPost(ret *ssa.Return, vals []Term) {
 		vars["result"] = vars["r0"]
 	}
 	for _, cl := range ct.Clauses {
-		if cl.Kind != "hint" || cl.Loop >= 0 {
+		if cl.Kind != "hint" || cl.Loop >= 0 || !fr.x.active(cl) {
 			continue
 		}
 		for _, cj := range splitConj(cl.Expr) {
@@ -181,7 +195,7 @@ func (fr *Frame) checkPost(ret *ssa.Return, vals []Term) {
 		}
 	}
 	for _, cl := range ct.Clauses {
-		if cl.Kind != "ensures" && cl.Kind != "preserves" && cl.Kind != "exit" {
+		if cl.Kind != "ensures" && cl.Kind != "preserves" && cl.Kind != "exit" || !fr.x.active(cl) {
 			continue
 		}
 		for _, cj := range splitConj(cl.Expr) {
